@@ -289,6 +289,10 @@ class Ranges:
             elif len(ops) == 1 and ops[0] in (ast.In, ast.NotIn):
                 a = self.affine(test.left, st)
                 vals = self.folder.fold(test.comparators[0])
+                if isinstance(vals, dict):
+                    vals = tuple(vals.keys())  # membership in a table: its keys
+                elif isinstance(vals, set):
+                    vals = tuple(vals)
                 if a and vals is not Unknown and isinstance(vals, (tuple, list, frozenset)) and all(isinstance(v, int) for v in vals):
                     s = ISet.of(vals)
                     if (ops[0] is ast.In) != truth:
